@@ -284,6 +284,40 @@ def run_sequential(spec):
             break
         evals += 1
         hashes.add(h64("sid-format", c))
+    # identities and optional parts of every shape: the id is identity;start;high32;low32[;optional...] whatever the
+    # identity looks like - one label, the longest legal name (253 octets, labels of 63), capitals, digits only,
+    # punycode - and whatever the optional parts are (empty, long, several); successive ids differ
+    lab = "a" * 63
+    identities = ["n", "node.verif.example", "NODE.Verif.Example", "127.0.0.1", "xn--nde-sna.example",
+                  ".".join([lab] * 3 + ["b" * 61]), ".".join([lab] * 3)[:229], ".".join([lab] * 3)[:228],
+                  "h" * 200 + ".example", "host-1_x.example.", "a.b.c.d.e.f.g.h.i.j.k.l.m.n.o.p"]
+    optionals = [(), ("",), ("opt",), ("a", "b", "c"), ("x" * 300,), ("user@realm", "42"), ("", "", "")]
+    for ident in identities:
+        g = SessionGenerator(ident)
+        got = []
+        for k in range(24):
+            opt = optionals[k % len(optionals)]
+            try:
+                sid = g.next_id(*opt)
+            except Exception as e:
+                wit.append({"key": f"ids.session.raises.{type(e).__name__}",
+                            "detail": {"identity_len": len(ident), "optional": [o[:20] for o in opt], "exc": repr(e)[:120]}})
+                break
+            got.append(sid)
+            want_tail = "".join(";" + o for o in opt)
+            head = sid[:len(sid) - len(want_tail)] if want_tail else sid
+            m = SESSION_RE.match(head)
+            if not sid.endswith(want_tail) or not m or m.group("ident") != ident or m.group("opt"):
+                wit.append({"key": "ids.session.format.identity_or_optional_part",
+                            "detail": {"identity": ident[:40], "identity_len": len(ident), "optional": [o[:20] for o in opt],
+                                       "sid_len": len(sid), "sid_tail": sid[-60:]}})
+                break
+            evals += 1
+            hashes.add(h64("sid-identity", ident, opt, k))
+        mandatory = [x[:len(ident) + 27] for x in got]
+        if len(set(mandatory)) != len(mandatory):
+            wit.append({"key": "ids.session.duplicate.sequential", "detail": {"identity_len": len(ident), "ids": len(got),
+                                                                               "distinct": len(set(mandatory))}})
     # end-to-end initialisation: all 4096 low-bit patterns of the start time
     bad = 0
     for low in range(4096):
